@@ -422,3 +422,6 @@ Proof.
   intros ? ? ? ? He Hf. destruct (cfg_bwdone c); [|inversion Hf; subst; exact He].
   eapply Inv_sending; [|exact Hf|exact He]. intros ? ? ? ? Hg Hh. inversion Hh; subst. exact Hg.
 Qed.
+
+Theorem Inv_from_new c clock s r ops : server_new c clock = (s, r) -> Inv (server_run s ops).
+Proof. intros H. apply Inv_reachable. exact (Inv_new c clock s r H). Qed.
